@@ -109,7 +109,7 @@ func VerifC16_Stack() {
 	port := func(c messaging.Component, name string) messaging.Port { return messaging.NewPort(c, 4, 4, name) }
 
 	memSpec := idealmemcontroller.DefaultSpec()
-	memSpec.Latency = 1 + 2*verifrt.Choice("memory-latency", verifrt.Bound("memory-latencies", 1, 2))
+	memSpec.Latency = 1 + 2*verifrt.Choice("memory-latency", verifrt.Bound("memory-latencies", 1, 1))
 	memSpec.Capacity = 1 << 16
 	lower := idealmemcontroller.MakeBuilder().WithRegistrar(reg).WithSpec(memSpec).
 		WithResources(idealmemcontroller.Resources{Storage: mem.NewStorage(1 << 16)}).Build("Mem")
